@@ -241,7 +241,9 @@ def sl2_irrep(A, n):
     c = A[..., 1, 0]
     d = A[..., 1, 1]
 
-    im = utils.zeros(A.shape[:-2] +(n, n), like=A)
+    # (the binomial coefficients below are floats, so the result cannot be
+    # accumulated in an integer array even if A has integer entries)
+    im = utils.zeros(A.shape[:-2] +(n, n), like=A, integer_type=False)
     r = n - 1
     for k in range(n):
         for j in range(n):
